@@ -539,6 +539,36 @@ func runC17(c *Ctx) {
 			}
 		}
 	}
+	// zero-padded (non-minimal) length prefixes: the message begins after the bytes the prefix
+	// really occupies, and what follows it stays in the look-ahead
+	for _, pad := range []int{1, 2, 4, 8} {
+		for _, payload := range [][]byte{[]byte("abc"), {}, bytes.Repeat([]byte{'q'}, 130)} {
+			prefix := protowire.AppendVarint(nil, uint64(len(payload)))
+			prefix[len(prefix)-1] |= 0x80
+			for k := 1; k < pad; k++ {
+				prefix = append(prefix, 0x80)
+			}
+			prefix = append(prefix, 0x00)
+			if len(prefix) > 10 {
+				continue
+			}
+			next := []byte{0x01, 'z'}
+			wire := append(append(append([]byte{}, prefix...), payload...), next...)
+			cs := rnCase{codec: "proto", limit: 1 << 20, spare: 0, wire: wire, sched: []int{len(wire)}, eofWithData: false}
+			out := runReadNext(cs)
+			in := fmt.Sprintf("prefix=%x (length %d in %d bytes) then a 1-byte message", prefix, len(payload), len(prefix))
+			c.Eval("padded-prefix", in, true)
+			c.Class("padded-prefix:" + errClass(out.err))
+			switch {
+			case out.panicked:
+				c.SpecFail("padded-prefix", in, "panic", "the message", "C17/proto/prefix-panic", "a padded length prefix crashes the caller")
+			case out.err != nil:
+				// refusing a non-minimal prefix outright would be acceptable; mis-framing is not
+			case out.n != len(payload) || out.n > len(out.dst) || !bytes.Equal(out.dst[:out.n], payload) || !bytes.HasPrefix(next, out.dst[out.n:]) && !bytes.HasPrefix(out.dst[out.n:], next):
+				c.SpecFail("padded-prefix", in, fmt.Sprintf("n=%d dst=%x", out.n, trunc(out.dst, 24)), fmt.Sprintf("n=%d, the payload, then %x in the look-ahead", len(payload), next), "C17/proto/padded-prefix-misframed", "a zero-padded length prefix makes the message start inside the prefix")
+			}
+		}
+	}
 	// malformed prefixes: 10 continuation bytes, 10th byte > 1
 	for _, p := range [][]byte{bytes.Repeat([]byte{0x80}, 10), bytes.Repeat([]byte{0xff}, 11), append(bytes.Repeat([]byte{0x80}, 9), 0x02), append(bytes.Repeat([]byte{0xff}, 9), 0x7f), append(bytes.Repeat([]byte{0x80}, 9), 0x01), {0x80}, {0xff, 0xff}} {
 		for _, eofd := range []bool{false, true} {
